@@ -400,7 +400,8 @@ theorem SIc_step {asc : Bool} {b : QBeh} {c c' : QCfg} (h : SIc asc c) (hs : ste
   cases step_stepR hs with
   | filtTrue hst => rw [hst] at h; exact nextFilter_SIc b c _ _ _ _ ho h.pop.pop
   | filtFalse hst => rw [hst] at h; exact ⟨ho, h.pop.pop.push _ rfl⟩
-  | iter hst => rw [hst] at h; exact nextListener_SIc b c _ _ _ _ ho h.pop.pop
+  | iter hst _ => rw [hst] at h; exact nextListener_SIc b c _ _ _ _ ho h.pop.pop
+  | iterStop hst _ => rw [hst] at h; exact ⟨ho, h.pop.pop.push _ rfl⟩
   | predDispatch hst hev hm =>
     rw [hst] at h
     refine nextFilter_SIc b c _ _ _ _ ho ?_
